@@ -9,6 +9,19 @@ use std::collections::HashMap;
 pub struct BddWalker {
     pub n: usize,
     memo: HashMap<usize, Tt>,
+    /// wide regimes only: a node tested a label the label map does not know
+    pub foreign: bool,
+}
+
+/// truth-table variable of an rsdd label: the label itself, or (wide regimes) its dense
+/// variable under the current label map; None for a label the map does not know
+fn tt_var(n: usize, l: rsdd::repr::VarLabel) -> Option<usize> {
+    let v = crate::gen::unlab(l);
+    if v >= n && crate::gen::label_map().is_some() {
+        None
+    } else {
+        Some(v)
+    }
 }
 
 impl BddWalker {
@@ -16,6 +29,7 @@ impl BddWalker {
         BddWalker {
             n,
             memo: HashMap::new(),
+            foreign: false,
         }
     }
     pub fn set_n(&mut self, n: usize) {
@@ -31,7 +45,13 @@ impl BddWalker {
         }
         let lo = self.tt(node.low);
         let hi = self.tt(node.high);
-        let v = Tt::var(self.n, node.var.value_usize());
+        let v = match tt_var(self.n, node.var) {
+            Some(v) => Tt::var(self.n, v),
+            None => {
+                self.foreign = true;
+                Tt::konst(self.n, false)
+            }
+        };
         let r = v.ite(&hi, &lo);
         self.memo.insert(key, r.clone());
         r
@@ -131,6 +151,7 @@ pub fn bdd_canon_string(p: BddPtr) -> String {
 pub struct SddWalker {
     pub n: usize,
     memo: HashMap<(u8, usize), Tt>,
+    pub foreign: bool,
 }
 
 fn sdd_key(p: SddPtr) -> Option<(u8, usize)> {
@@ -146,6 +167,7 @@ impl SddWalker {
         SddWalker {
             n,
             memo: HashMap::new(),
+            foreign: false,
         }
     }
     /// function of the regular version of a node pointer
@@ -158,7 +180,13 @@ impl SddWalker {
             SddPtr::BDD(b) | SddPtr::ComplBDD(b) => {
                 let lo = self.tt(b.low());
                 let hi = self.tt(b.high());
-                Tt::var(self.n, b.label().value_usize()).ite(&hi, &lo)
+                match tt_var(self.n, b.label()) {
+                    Some(v) => Tt::var(self.n, v).ite(&hi, &lo),
+                    None => {
+                        self.foreign = true;
+                        lo
+                    }
+                }
             }
             SddPtr::Reg(o) | SddPtr::Compl(o) => {
                 let mut acc = Tt::konst(self.n, false);
@@ -178,7 +206,13 @@ impl SddWalker {
         match p {
             SddPtr::PtrTrue => Tt::konst(self.n, true),
             SddPtr::PtrFalse => Tt::konst(self.n, false),
-            SddPtr::Var(l, pol) => Tt::lit(self.n, l.value_usize(), pol),
+            SddPtr::Var(l, pol) => match tt_var(self.n, l) {
+                Some(v) => Tt::lit(self.n, v, pol),
+                None => {
+                    self.foreign = true;
+                    Tt::konst(self.n, false)
+                }
+            },
             SddPtr::BDD(_) | SddPtr::Reg(_) => self.reg(p),
             SddPtr::ComplBDD(_) | SddPtr::Compl(_) => self.reg(p).not(),
         }
